@@ -17,7 +17,7 @@ import (
 )
 
 func init() {
-	for _, p := range []string{"C20", "C01", "C14", "C08"} {
+	for _, p := range []string{"C20", "C01", "C14", "C08", "C05"} {
 		families[p] = append(families[p], mapWritersFamily)
 	}
 }
